@@ -16,12 +16,15 @@ One transition = one atomic step of the code:
   * `drain exec`           : `item = ready.popleft(); if not item.is_cancelled(): item.invoke()`
   * `drain check`          : `with lock: if not queue: break; …; if seconds > 0: condition.wait(seconds)`
   * `drain final`          : `finally: with lock: idle = True; queue.clear()`
+  * `act … (raise_ :: _)`  : the action raises: the exception leaves `item.invoke()`, `_run` (its `ready` batch is lost)
+  * `drain abort`          : `except BaseException: with lock: idle = True; queue.clear()`; re-raise to the `schedule*` caller
 With `fixed = true` (the proposed fix of the lost-item race) the emptiness test and `idle = True`
 are one locked step and there is no `final` step.
 
-Time: integer microseconds; `dt` = time that passed since the previous step (0 in the deterministic
-single-thread runs with a patched clock; arbitrary in the theorems).  `wait(seconds)` with no other
-thread returns when the due time is reached.
+Time: integer microseconds; `dt` = time that passed since the previous step (arbitrary in the theorems).
+`condition.wait(seconds)` is its own state (`drain waiting`): it may return at any time (timeout, or early
+when another thread enqueues on a shared trampoline and notifies); a lone thread's wait lasts until the due
+time (`dtFor`).
 -/
 
 namespace Thr.Tramp
@@ -32,6 +35,7 @@ inductive Op where
   | schedAbs (lbl : Nat) (t : Int) (body : List Op)     -- scheduler.schedule_absolute(t, action)
   | cancel (lbl : Nat)                                  -- dispose the disposable returned for item `lbl`
   | tick (d : Nat)                                      -- the action takes d µs
+  | raise_                                              -- the action raises (the exception leaves `Trampoline.run`)
 deriving Repr
 
 /-- a `ScheduledItem`; `seq` is the PriorityQueue's insertion count (ghost: global scheduling order). -/
@@ -44,6 +48,8 @@ deriving Repr
 
 inductive Phase where
   | collect | exec | check | final
+  | waiting     -- inside `condition.wait(seconds)`: returns on timeout or when another thread's `run` notifies
+  | abort       -- an action raised: `except BaseException: with lock: idle = True; queue.clear()` then re-raise
 deriving Repr, DecidableEq
 
 inductive Frame where
@@ -62,10 +68,12 @@ inductive Ev where
   | enq (id : Nat) (seq : Nat) (runner : Bool)                  -- enqueued; runner = this call drains the queue
   | start (id : Nat) (due : Int) (seq : Nat) (clk : Int)        -- action invoked
   | fin (id : Nat)                                              -- action returned
+  | raised (id : Nat)                                           -- action raised
   | cancel (id : Nat)
   | skip (id : Nat)                                             -- popped from the ready batch, found cancelled
   | collect (n : Nat)
   | wait (till : Int)
+  | woke                                                        -- `condition.wait` returned
   | exit_                                                       -- drain loop left (queue empty)
   | final (dropped : List Nat)                                  -- `finally` block; ids removed by `queue.clear()`
 deriving Repr, DecidableEq
@@ -74,6 +82,7 @@ deriving Repr, DecidableEq
 structure Tr where
   idle : Bool := true
   queue : List Item := []
+  raisedG : Bool := false      -- ghost: some action raised on this trampoline (items were discarded)
 deriving Repr
 
 /-- state shared by all threads -/
@@ -112,12 +121,19 @@ def thStep (fixed : Bool) (tr : Tr) (g : Glob) (th : Th) : Tr × Glob × Th :=
                 log := .sched l (g.clock + max d 0) g.clock .rel :: th.log })
     | .schedAbs l t body =>
       (tr, g, { stack := .enq id ⟨l, t, 0, body⟩ ops :: rest, log := .sched l t g.clock .abs :: th.log })
+    | .raise_ =>
+      -- the exception unwinds the action and the drain loop's local `ready` batch; the top-level program (which catches
+      -- per call) continues.  At top level (`id = none`) a raise is a no-op.
+      match id, rest with
+      | some i, .drain _ _ :: rest' =>
+        ({ tr with raisedG := true }, g, { stack := .drain .abort [] :: rest', log := .raised i :: th.log })
+      | _, _ => (tr, g, { th with stack := .act id ops :: rest })
   | .enq id it ops :: rest =>
     let it' := { it with seq := g.nsched }
     let q := enqueue tr.queue it'
     let g' := { g with nsched := g.nsched + 1 }
     if tr.idle then
-      ({ idle := false, queue := q }, g',
+      ({ tr with idle := false, queue := q }, g',
         { stack := .drain .collect [] :: .act id ops :: rest, log := .enq it.id g.nsched true :: th.log })
     else
       ({ tr with queue := q }, g', { stack := .act id ops :: rest, log := .enq it.id g.nsched false :: th.log })
@@ -139,10 +155,16 @@ def thStep (fixed : Bool) (tr : Tr) (g : Glob) (th : Th) : Tr × Glob × Th :=
       else (tr, g, { stack := .drain .final ready :: rest, log := .exit_ :: th.log })
     | it :: _ =>
       if it.due > g.clock then
-        (tr, { g with clock := it.due }, { stack := .drain .collect ready :: rest, log := .wait it.due :: th.log })
+        (tr, g, { stack := .drain .waiting ready :: rest, log := .wait it.due :: th.log })
       else (tr, g, { th with stack := .drain .collect ready :: rest })
+  | .drain .waiting ready :: rest =>
+    -- the wait returns (timeout, or a notify from another thread that enqueued on this trampoline); the time that passed
+    -- is the `dt` of this step
+    (tr, g, { stack := .drain .collect ready :: rest, log := .woke :: th.log })
   | .drain .final _ :: rest =>
-    ({ idle := true, queue := [] }, g, { stack := rest, log := .final (tr.queue.map (·.id)) :: th.log })
+    ({ tr with idle := true, queue := [] }, g, { stack := rest, log := .final (tr.queue.map (·.id)) :: th.log })
+  | .drain .abort _ :: rest =>
+    ({ tr with idle := true, queue := [] }, g, { stack := rest, log := .final (tr.queue.map (·.id)) :: th.log })
 
 /-! ## single-thread machine -/
 
@@ -177,12 +199,18 @@ def runA (fixed : Bool) (s : St) (acts : List Act) : St := acts.foldl (stepA fix
 def init (prog : List Op) (clock : Int := 0) : St :=
   { g := { clock }, th := { stack := [.act none prog] } }
 
+/-- time a lone thread spends in its next step: a `wait(seconds)` that nobody interrupts lasts until the due time -/
+def dtFor (s : St) : Nat :=
+  match s.th.stack, s.tr.queue with
+  | .drain .waiting _ :: _, it :: _ => (it.due - s.g.clock).toNat
+  | _, _ => 0
+
 /-- deterministic execution with a clock that only moves through `tick` and `wait` (fuel-bounded). -/
 def exec (fixed : Bool) : Nat → St → St
   | 0, s => s
   | n + 1, s => match s.th.stack with
     | [] => s
-    | _ => exec fixed n (step fixed s 0)
+    | _ => exec fixed n (step fixed s (dtFor s))
 
 /-! ## several threads, several trampolines (CurrentThreadScheduler: one per thread; shared TrampolineScheduler: one for all) -/
 
